@@ -17,20 +17,22 @@ RULE = ("PhytoOut transitions (state before/after the call in sub-step 1) of tra
         "with every other N-content function NGEFKT = 0..9; branch coverage of the root/shoot N update is listed in input_distribution")
 TRUSTED = ["binary64 semantics of Go on amd64 (no fused multiply-add) = Coq primitive floats",
            "the harness' shadow of CropSharedVars (real parameter reader + real PhytoOut replayed on a copy, checked equal to the run every day)",
-           "oracle values mirrored in the harness from crop.go: devprog, exp argument of REDUK, root() (validated against POTROOTINGDEPTH), maxup, MASS[i], DIFF[i]",
+           "values mirrored in the harness from crop.go: devprog, maxup, MASS[i], DIFF[i], Qrez - each now ALSO recomputed by the Coq model from the raw state and compared (round 9); "
+           "the exp argument of REDUK; the verbatim shadow of radia() (generated from the source text, compared with the real kernel via the hook VerifRadia on every case)",
            "R->F gap: range theorems are proved in exact real arithmetic; at binary64 the ranges are observed on every traced crop day (tolerance 1e-9 on [0,1] factors)"]
-ASSUMPTIONS = ["photosynthesis, respiration, vernalisation/day-length factors, exp/log/pow and the root function are NOT modelled: "
-               "their results enter the model as oracle inputs (GTW, maintenance terms, FV, FP, devprog, every Exp/Pow/Log value, Qrez, maxup, MASS, DIFF)",
+ASSUMPTIONS = ["since round 9 photosynthesis (radia: RadiaModel head + assim_of tail), vernalisation / day-length factor / stress acceleration and root() (DevModel), "
+               "the root distribution and pool inputs (RootDistModel), maxup / MASS / DIFF (SupplyModel) and the crop coefficient are MODELLED and tied bit for bit; "
+               "what remains an oracle input: the value of every transcendental call (exp, log, pow with a non-integer exponent, sin, cos, asin), the maintenance "
+               "respiration sum MAINTS*TEFF of radia, and GTW / the maintenance terms of the organ fragment (obtained by a second replay of the real PhytoOut)",
                "GEHOB/WUGEH >= 0 is proved only under 'root share of the uptake <= 1' and 'old root N within the crop N'; without the first "
                "it is refuted (C09_gehob_negative_refuted = finding F24) and observed on every traced crop day",
                "parameter preconditions not guarded by the code are explicit hypotheses: tendsum > 200 (N-content function 8), RGA > 0 (function 5), "
                "partition rows summing to 1 (re-proved for every shipped file on each run)",
                "permanent crops (regrowth resets the stage) and catch crops are outside the claim",
-               "unmodelled parts of crop.go (observed through the oracle only or not at all): sowing block 61-127, FKC/BBCH 138-144 and 292-312, SWC sums 159-180, "
-               "automatic harvest 182-205 and 549-555, radia call/GPP 212-224, protein targets/vern/FP/devprog 229-285, CalulateDevelopmentStages 290, "
-               "stress counters 441-451, RespDay 461, LAIMAX 488-490, dead-leaf N to NFOS/NAOS 495-496, permanent-crop regrowth 521-541, WUMM 563-568 and "
-               "658-661, root() call 580-581, root radius/density/WUANT 608-651, maxup 662-681, MASS/D/DIFF 688-699, SimulateFertilizationAfterPrognose 701, "
-               "MASSUM/DIFFSUM 717-718, SCHNORR/NFIXSUM 739-740, radia 767-979, root 981-1003, vern 1005-1040"]
+               "unmodelled parts of crop.go (observed through the oracle only or not at all): sowing block 61-127, BBCH day bookkeeping 140-144 and 308-312, SWC sums 159-180, "
+               "automatic harvest 182-205 and 549-555, GPP sums 212-224, protein targets 229-237, CalulateDevelopmentStages 290, "
+               "stress counters 441-451, RespDay 461, LAIMAX 488-490, permanent-crop regrowth 521-541, SimulateFertilizationAfterPrognose 701, "
+               "MASSUM/DIFFSUM 717-718, SCHNORR/NFIXSUM 739-740, the maintenance loop of radia 955-971, the cumulative root percentages of root() (unused by PhytoOut)"]
 LEVEL_TEXT = ("PARTIAL proof, two layers. Coq proofs for all inputs of the decision/clamp logic inside PhytoOut: the stage index never decreases and "
               "the recorded stage dates are ordered over any sequence of days (any numeric type); organ masses/LAI/assimilate pool stay "
               "non-negative; 0 <= REDUK <= 1 (with exp(1+1/(AUX-1)) in (0,1)); 1 <= WURZ <= min(N, max(1, round(WURZMAX*WUMAXPF/11))); uptake "
